@@ -1089,6 +1089,48 @@ Section Tables.
     | OUnmod => [99]
     end.
 
+  Definition enc_nf (n : nform) : list Z :=
+    match n with
+    | NNone => [0]
+    | NText s => 1 :: len s :: s
+    | NBytes s => 2 :: len s :: s
+    | NNum f => 3 :: enc_fl f
+    | NVec l => 4 :: len l :: flat_map enc_fl l
+    | NMat l => 5 :: len l :: flat_map (fun r => len r :: flat_map enc_fl r) l
+    | NOther => [99]
+    end.
+
+  (* ConfigurationDict.items(): sorted by key (code point order) *)
+  Fixpoint str_leb (a b : str) : bool :=
+    match a, b with
+    | [], _ => true
+    | _ :: _, [] => false
+    | x :: a', y :: b' =>
+        if x <? y then true else if y <? x then false else str_leb a' b'
+    end.
+
+  Fixpoint insert_kv (kv : str * value) (l : dict) : dict :=
+    match l with
+    | [] => [kv]
+    | kv' :: t => if str_leb (fst kv) (fst kv') then kv :: l
+                  else kv' :: insert_kv kv t
+    end.
+
+  Definition items (d : dict) : dict := fold_right insert_kv [] d.
+
+  (* several assignments to one section (update / constructor with a whole
+     dictionary), observed through items() *)
+  Definition multi_case (c : str * list (str * value)) : list Z :=
+    let (sec, its) := c in
+    match update sec its [] with
+    | Done d ws =>
+        1 :: len ws :: map enc_warning ws ++ len d ::
+        flat_map (fun kv => len (fst kv) :: fst kv ++ enc_value (snd kv))
+                 (items d)
+    | Exc e => [2; enc_err e]
+    | OUnmod => [99]
+    end.
+
   (* correspondence entry points; a case is (route, sec, key, value) with
        route 0: item assignment / update / constructor
        route 1: configuration file (the value is the text right of "=")
@@ -1108,6 +1150,18 @@ Section Tables.
       match save_load_route sec key v with
       | inl o => enc_outcome (strip key) o
       | inr _ => [97]
+      end
+    else if route =? 5 then
+      (* Configuration.as_dict / tojson: the JSON value of the stored entry,
+         observed through the normal form [nf] *)
+      match setitem sec key v [] with
+      | Done d [] => match dget d (lower key) with
+                     | Some w => enc_nf (nf w)
+                     | None => [97]
+                     end
+      | Done _ _ => [97]
+      | Exc e => [2; enc_err e]
+      | OUnmod => [99]
       end
     else if route =? 2 then enc_outcome key (h5_route sec key v [])
     else
